@@ -169,6 +169,12 @@ def step (w : World) (line : String) : World × String :=
           (w1, s!"{obsOk true} ## - {live w1}")
         | none => bad)
      | _, _ => bad)
+  | ["freenull", s] =>
+    -- cx_free(cx, NULL): a no-op for every allocator ("libc" = cx_libc_allocator / USUAL_ALLOC)
+    if s == "libc" then (w, "ok") else
+    (match num s with
+     | some s => if !isCx w s then bad else (cxFreeOptW fuelW w s none, "ok")
+     | _ => bad)
   | ["d", s] =>
     (match num s with
      | some s =>
